@@ -1063,4 +1063,43 @@ example : (sessRun [([0, 4, 1] : List ℚ), [2, 1, 3]]
 example : ∀ r ∈ (Step.cmp 0 1 (fun (a b : List ℚ) => a.length + b.length) : Step (List ℚ) ℕ).refs,
     r < ([[0, 4, 1], [2, 1, 3]] : List (List ℚ)).length := by decide
 
+/-! ## 9. Correlation on a large common offset: why the centred (two-pass) form is benign (round 7)
+
+`compare_correlation` removes the means and then takes inner products.  In doubles the computed mean of
+a row on a large offset carries a rounding error `d`; for rows whose differences `xᵢ - mean^` are exact
+(the class the correspondence generates: one dyadic grid, exact sums, entries within a factor two) the
+computed centred row is exactly `center x - d`.  `centred_moment_common_error` says such a common error
+enters every centred moment only through the product of the two errors (`n·d·e`, for the variances
+`n·d²`): second order, ≤ 2n(2⁻⁵³κ)² relative.  `centred_moment_eq_raw` says the one-pass raw-moment
+form `Σxy − ΣxΣy/n` is the same number over a field — so no exact theorem separates the two codes;
+only the correspondence on large offsets does (there the raw sums round at `n·b²·2⁻⁵²`, first order). -/
+
+/-- a common error `d`, `e` in the two means changes the centred cross moment by exactly `n·d·e` -/
+theorem centred_moment_common_error (d e : K) (x y : List K) (h : x.length = y.length) :
+    dot ((center x).map (· - d)) ((center y).map (· - e)) =
+      dot (center x) (center y) + x.length * (d * e) := by
+  have hl : (center x).length = (center y).length := by simp [center, h]
+  rw [dot_map_sub_sub d e _ _ hl, sum_center, sum_center]
+  simp [center]
+
+/-- the one-pass raw-moment form of the centred cross moment: equal over a field -/
+theorem centred_moment_eq_raw (x y : List K) (h : x.length = y.length) (hx : x ≠ []) :
+    dot (center x) (center y) = dot x y - x.sum * y.sum / x.length := by
+  have hn : (x.length : K) ≠ 0 := by
+    have : 0 < x.length := List.length_pos_iff.mpr hx
+    positivity
+  have := dot_map_sub_sub (mean x) (mean y) x y h
+  unfold center
+  rw [this]
+  unfold mean
+  rw [← h]
+  field_simp
+  ring
+
+example : ([1, 2, 6] : List ℚ).length = ([0, 5, 1] : List ℚ).length ∧ ([1, 2, 6] : List ℚ) ≠ [] := by
+  decide
+example : dot ((center ([1, 2, 6] : List ℚ)).map (· - 1/8)) ((center ([0, 5, 1] : List ℚ)).map (· - 1/4)) =
+    -2 + 3 * (1/8 * (1/4)) ∧ dot (center ([1, 2, 6] : List ℚ)) (center [0, 5, 1]) = -2 := by
+  decide +kernel
+
 end Rsa.Props.C17
